@@ -78,6 +78,29 @@ class Out:
     def note(self, s):
         self.notes.append(s)
 
+    def absorb(self, other, rules):
+        """take over the obligations of the given rules evaluated into another collector"""
+        for r in rules:
+            if r in other.by_rule:
+                a, b = other.by_rule[r]
+                br = self.by_rule.setdefault(r, [0, 0])
+                br[0] += a
+                br[1] += b
+                self.obligations += a
+                self.discharged += b
+                if r in other.rule_texts:
+                    self.rule_texts[r] = other.rule_texts[r]
+        for f in other.findings:
+            if f.rule in rules:
+                self.findings.append(f)
+        for k in other.ob_keys:
+            if k[0] in rules:
+                self.ob_keys.add(k)
+        for smp in other.samples:
+            if smp.get('rule') in rules and len([x for x in self.samples if x.get('rule') == smp.get('rule')]) < 4:
+                self.samples.append(smp)
+        self.units |= other.units
+
 
 def load_known():
     if not os.path.exists(KNOWN):
